@@ -364,6 +364,32 @@ func evalC16(c *Ctx, cs *Case) {
 			}
 		}
 	}
+	// --file spelled through a symbolic link and "..": the kernel follows the link first, so
+	// <dir>/via/../doc.md is <dir>/sub/doc.md (the judged document), not the cleaned path
+	// <dir>/doc.md (another document); and "doc.md/" names nothing (ENOTDIR): an error
+	{
+		os.MkdirAll(filepath.Join(j.Root, "spelling", "sub", "real"), 0o755)
+		os.Symlink("sub/real", filepath.Join(j.Root, "spelling", "via"))
+		os.WriteFile(filepath.Join(j.Root, "spelling", "sub", "doc.md"), doc, 0o644)
+		os.WriteFile(filepath.Join(j.Root, "spelling", "doc.md"), []byte("- decoy-at-the-cleaned-path\n  - x\n"), 0o644)
+		lib := OutputMD(string(doc))
+		libOut := lib.Out
+		if libOut == nil {
+			libOut = []byte{}
+		}
+		for _, sub := range []string{"output", "mkdir", "verify"} {
+			if sub != "output" && int(cs.Seed%3) != 0 {
+				continue
+			}
+			args := []string{sub, "--file", filepath.Join(j.Root, "spelling") + "/via/../doc.md"}
+			if sub == "output" {
+				res := runCLI(c, j.Target, nil, "", args...)
+				judge(sub+" --file <link>/../doc.md", res, lib.Err == nil && lib.Panic == nil, libOut, true, nil, map[string]any{"lib_err": errStr(lib.Err)})
+			}
+			res := runCLI(c, j.Target, nil, "", sub, "--file", docFile+"/")
+			judge(sub+" --file doc.md/", res, false, nil, false, nil, map[string]any{"note": "a regular file followed by a slash is not a file name the kernel accepts"})
+		}
+	}
 	// --massive together with --massive-timeout: the timeout must stay in force whatever the order
 	// of the two flags (an expired deadline fails the call in the library, so it must in the CLI)
 	if len(bytes.TrimSpace(doc)) > 0 {
@@ -642,6 +668,15 @@ func c16Usage(c *Ctx, cs *Case) {
 		{"mkdir", "--dry-run", ""},
 		{"verify", ""},
 		{"output", "--", ""},
+		// stray words that mean something to the command-line framework (implicit sub-commands)
+		{"output", "help"},
+		{"mkdir", "h"},
+		{"verify", "--strict", "h"},
+		{"template", "help"},
+		{"output", "--", "help"},
+		{"output", "version"},
+		{"output", "-"},
+		{"mkdir", "--dry-run", "help"},
 	}
 	for _, args := range cases {
 		res := runCLI(c, j.Target, doc, "", args...)
